@@ -163,7 +163,48 @@ func (x *Exec) havocLoop(fr *Frame, st *State, h *ssa.BasicBlock, body map[*ssa.
 		et := deref(a.Type())
 		st.cells[a] = x.freshOfType(st, "hv_"+a.Comment, et)
 	}
+	// objects that cannot be written by this loop keep their contents: a non-escaping local of
+	// another function (this loop belongs to an inlined callee that is not one of its closures),
+	// and owned fields that the loop does not store to directly
+	before := map[string]string{}
+	for k := range keys {
+		if srt, ok := x.vc.memSorts[k]; ok {
+			before[k] = x.memGet(st, k, srt)
+		}
+	}
 	x.havocKeys(st, sortedKeys(keys))
+	for _, o := range x.liveObjs {
+		related := false
+		for f := fr.fn; f != nil; f = f.Parent() {
+			if f == o.owner {
+				related = true
+			}
+		}
+		if !related || (o.alloc != nil && !allocWrittenInLoop(o.alloc, body)) {
+			x.preserveObj(st, o.typ, o.ptr, before)
+		}
+	}
+	if fr.depth > 0 {
+		direct := map[string]bool{}
+		for b := range body {
+			for _, ins := range b.Instrs {
+				if stt, ok := ins.(*ssa.Store); ok {
+					x.p.storeKeys(stt.Addr, stt.Val.Type(), direct)
+				}
+			}
+		}
+		for _, o := range x.owned {
+			if direct[o.key] {
+				continue
+			}
+			if old, ok := before[o.key]; ok {
+				cur := x.memGet(st, o.key, x.vc.memSorts[o.key])
+				if cur != old {
+					x.vc.assert(fmt.Sprintf("(= (select %s %s) (select %s %s))", cur, o.ptr, old, o.ptr))
+				}
+			}
+		}
+	}
 	for _, ins := range h.Instrs {
 		phi, ok := ins.(*ssa.Phi)
 		if !ok {
